@@ -332,6 +332,7 @@ func (s *Sim) loop() {
 		if c := s.cur; c != nil && c.state == Running {
 			// released, durably blocked, and not parked on its gate: blocked in a real channel operation
 			c.state = RealBlocked
+			c.on = c.site
 		}
 		s.cur = nil
 		s.dirty = false
